@@ -39,6 +39,15 @@ fn main() {
         c15::seed_child();
         return;
     }
+    if args[1] == "--pager-counters" {
+        // debugging aid: what does the state-graph construction do on this .y file?
+        let text = std::fs::read_to_string(&args[2]).expect("cannot read file");
+        lrtable::verif_hooks::reset();
+        let grm = cfgrammar::yacc::YaccGrammar::<u32>::new(vcore::real::YK, &text).expect("grammar");
+        let r = lrtable::from_yacc(&grm, lrtable::Minimiser::Pager);
+        println!("(reprocessed, new while re-processing, gc removed) = {:?}; states = {:?}", lrtable::verif_hooks::pager_counters(), r.as_ref().ok().map(|(sg, _)| usize::from(sg.all_states_len())));
+        return;
+    }
     if args[1] == "--gen-pager-family" {
         if args.len() < 4 {
             usage();
